@@ -81,6 +81,13 @@ def c18(tier):
                 replay_libs=ICU_LIBS, native_extra=NATIVE_ICU, unwindset=["cif_value_free:2", "cif_value_clean:2", "u_strpbrk.*:%d" % max(K + 2, 10)],
                 bounds={"string": "<= %d units over the CIF 2.0 character set" % K},
                 note="cif_value_set_quoted / try_quoted(NOT_QUOTED) vs reference predicate"))
+    # admissibility of the recommended presentation: the dispatch queries of C02 / C13 (real cif_analyze_string + write_char, writers =
+    # stubs asserting the conditions under which each presentation reads back) are C18 statements as well
+    import copy
+    for ver, fn in ((2, c02), (1, c13)):
+        for q in fn(tier):
+            if "_dispatch_K" in q.name and "_F" not in q.name:
+                q = copy.copy(q); q.name = "C18_via_" + q.name; qs.append(q)
     return qs
 
 
@@ -101,6 +108,11 @@ def c09(tier):
                         extra=ICU_NORM_CHEAP, unwind=K + 3, mode=mode, replay_libs=ICU_LIBS, native_extra=["stubs/icu_norm_cheap.c"],
                         bounds={"string": "<= %d units, full 16-bit alphabet" % K, "CIF_LINE_LENGTH (hook)": L},
                         note="validity screening of codes / data names / table keys vs reference predicate"))
+    # keys of tables and packets: matched by equivalence, enumerated in the most recently used spelling (the C19 map queries)
+    import copy
+    for q in c19(tier):
+        if q.name.startswith("C19_table_") or q.name.startswith("C19_packet_"):
+            q = copy.copy(q); q.name = "C09_via_" + q.name; qs.append(q)
     return qs
 
 
@@ -550,6 +562,8 @@ def scan_queries(tier, mode="func"):
     for fn in range(1, 7):
         for v in (2, 1):
             k = (5 if fn in (4, 5, 6) else 5) if tier == "quick" else (7 if fn in (4, 5, 6) else 6)
+            if tier == "quick" and fn == 5 and v == 2 and mode == "func":
+                k = 7          # a triple-quoted string with delimiter characters on both sides of a line terminator needs 7 units (~90 s)
             d = {"KLEN": k, "CIFV": v, "SCANFN": fn, "CIF_API_VERIF_BUF_SIZE_INITIAL": 16, "CIF_API_VERIF_BUF_MIN_FILL": 1, "CIF_API_VERIF_LINE_LENGTH": L}
             qs.append(Q("scan_%s_K%d_v%d_%s" % (SCAN_NAMES[fn], k, v, mode), "h01_scan.c", defs=d, extra=ICU, libtus=["parser.c"], remove=PARSER_SEAMS,
                         unwind=k + 3, unwindset=["cif_parse_internal.*:170", "harness.*:%d" % (k + 2), "ref_kw.*:9"], mode=mode, replay=False,
@@ -578,7 +592,8 @@ VALUE_SCRIPTS = ["(VQ)", "()", "{}", "(UDT)", "(V(Q)V)", "{KV}", "{KVKQ}", "({KV
 VALUE_SCRIPTS_MORE = ["((V))", "(VVVV)", "{KVKVKV}", "(({KV}))", "(T{KT})"]      # a list nested in a table ("{K(V)}") gives no verdict in 600 s: not claimed
 VALUE_DEFECTS = [("list_unterminated_eof", "(VV", "136", 2, 3), ("list_unterminated_name", "(VN", "136", 1, 2), ("table_unterminated", "{KVN", "136", 1, 3),
                  ("table_missing_value", "{K}", "133", 1, 3),       # ("{V}": the search for a colon inside the symbolic token makes the token stream symbolic - no verdict) ("table_stray_quoted", "{Q}", "137", 0, 3),
-                 ("table_stray_list", "{KV(V)}", "137", 1, 7), ("nested_unterminated", "({KV)", "136", 1, 5)]
+                 ("table_stray_list", "{KV(V)}", "137", 1, 7), ("nested_unterminated", "({KV)", "136", 1, 5),
+                 ("table_stray_after_entry", "{KQQ}", "137", 1, 5, 1)]
 
 
 def value_queries(tier, prefix, defects):
@@ -589,6 +604,8 @@ def value_queries(tier, prefix, defects):
         defs = {"SCRIPT": '"%s"' % sc, "EXISTING": 1 if (len(sc) % 2) else 0}
         if d:
             defs.update({"EXPECT_ERRS": d[2], "EXPECT_TOP": d[3], "EXPECT_CONSUMED": d[4]})
+            if len(d) > 5:
+                defs["LIVE_KEY_AT"] = d[5]
         nm = ("value_" + sc.replace("(", "l").replace(")", "j").replace("{", "t").replace("}", "e")) if not d else ("defect_" + d[0])
         qs.append(Q("%s_%s" % (prefix, nm), "h01_value.c", defs=defs, extra=ICU_NORM_CHEAP, libtus=PROD_TUS, remove=[("parser.c", "__CPROVER_file_local_parser_c_next_token"), ("value.c", "cif_value_set_quoted"), ("value.c", "cif_value_try_quoted")],
                     unwind=len(sc) + 4, unwindset=[e.replace(":2", ":4") for e in VAL_REC] + ["harness.*:162", "memset.*:2000", "memcmp.*:8", "check:5", "skip:6",
@@ -720,6 +737,12 @@ def c03(tier):
     qs = scan_queries(tier, mode="safety") + [q for q in tok_queries(tier) if "_p1_" in q.name][:1] + [q for q in c08(tier) if q.mode == "safety"]
     # the start-up of cif_parse_internal: every error callback there gets line >= 1 and a text that is NULL or readable
     qs += [q for q in c11(tier) if "_stage2_" in q.name and "_bom" in q.name]
+    # list / table productions on malformed token scripts under CBMC's memory checks (use after free, double free, leaks in the recovery paths)
+    for q in value_queries(tier, "vdef", True):
+        if "LIVE_KEY_AT" in q.defs:
+            q.name = q.name.replace("vdef_defect_", "value_defect_") + "_live"; qs.append(q)      # explicit liveness assertion, run without the leak check
+            continue
+        q.mode = "safety"; q.name = q.name.replace("vdef_defect_", "value_defect_") + "_safety"; qs.append(q)
     for q in qs:
         q.name = "C03_" + q.name
     return qs
@@ -802,6 +825,12 @@ def write_queries(tier, version, prefix):
                     bounds={"entry": "write_char", "value text": "%d symbolic code units%s" % (k + (1 if fill else 0), ", with %d concrete 'a' between the last two" % fill if fill else ""),
                             "quoted flag / allow_text / start column": "symbolic", "CIF_LINE_LENGTH": WL},
                     note="write_char -> cif_analyze_string -> choice of writer; writers are stubs asserting oracles/writer_contract.h"))
+    for k in ((3,) if tier == "quick" else (2, 3, 4)):
+        qs.append(Q("%s_fold_call_K%d" % (prefix, k), "h02_foldcall.c", defs={"KLEN": k, "CIF_API_VERIF_LINE_LENGTH": 20}, extra=ICU_NORM_CHEAP + ["stubs/ustdio_sink.c"],
+                    libtus=["ciffile.c", "utils.c", "value.c", "map.c", "packet.c"], remove=[("ciffile.c", "__CPROVER_file_local_ciffile_c_fold_line")], gen=gen_write_ctx,
+                    unwind=k + 4, unwindset=VAL_REC + ["u_fprintf.*:%d" % (k + 12), "strlen.*:12"], mode="func", replay=False, uthash="model", mem_gb=8,
+                    bounds={"entry": "write_text", "text": "%d symbolic code units (newlines included)" % k, "fold / prefix / start column": "symbolic"},
+                    note="the arguments write_text passes to fold_line (fold_line = checking stub)"))
     for (nl, wl) in ([(19, 16)] if tier == "quick" else [(19, 16), (24, 16), (24, 20)]):
         qs.append(Q("%s_fold_line_N%d_L%d" % (prefix, nl, wl), "h02_fold.c", defs={"NL": nl, "CIF_API_VERIF_LINE_LENGTH": wl}, extra=ICU_NORM_CHEAP,
                     libtus=["ciffile.c", "utils.c", "value.c", "map.c", "packet.c"], gen=gen_write_ctx, unwind=nl + 3, unwindset=VAL_REC + ["u_strlen.*:%d" % (nl + 2)],
